@@ -2,6 +2,12 @@
 DEFERRED = "rules for this property are not armed yet (build order: DESIGN.md Appendix D); not claimed until a self-tested rule exists"
 
 CLAIMS = {
+    "C08": {
+        "level": "other",
+        "text": "Reader-side layout rules for COM_STMT_EXECUTE parameters: NULL bitmap = payload[0..(params+7)/8) (affine), NULL test = byte col/8 bit col%8, per column-type arm and unsigned flag of the value parser the exact sequence of stateful cursor reads (widths, signedness, lenenc + guarded split, length byte + guarded split) and the variant produced, widening only; one column increment per yielded parameter, stop at col >= params, params = the statement's declared count; encoder/decoder agree on the 14 byte-string column types; the temporal converters' accepted length forms vs the protocol's, and satisfiability of every length test given the bytes already consumed (found and fixed: microseconds never decoded, 4-byte DATETIME panicked; zero-date forms remain known findings). Flag byte / type table / value start offsets are C16's rules.",
+        "note": "Trusted: mysql_common::read_lenenc_int, chrono constructors, IEEE widening, byteorder cursor reads. Value equality through chrono/float formatting is not decided.",
+        "technique": "cursor/read-sequence analysis over enumerated paths per column-type arm, affine normal forms, length-form satisfiability",
+    },
     "C01": {
         "level": "other",
         "text": "Mechanism clauses that make reassembly independent of chunking, decided symbolically: single transport read site and window-field ownership; the receive-window invariant start + remaining = len(bytes) established on entry and re-established around the read loop (inductive check with a Vec length model and a ghost `consumed prefix` counter: parser gets bytes[start..], remaining := len(rest), drain removes exactly the consumed prefix, the transport reads into bytes[old_len..], len := end + n); short buffers (parser Incomplete/Error) lead to another read, only Failure is an error; framing constants of the two packet parsers as affine cursor offsets (u24 length @0, sequence @3, payload @4 of exactly that length / ffffff + 0xFFFFFF bytes) and in-order appends of fragments. Byte-for-byte equality through nom's combinators is not decided (trusted library).",
